@@ -14,6 +14,12 @@ CRLF = b'\r\n'
 TOKENS = [b'GET', b'CONNECT', b'FOO', b' ', b'/', b'http://h/', b'ftp://h/', b'h:443', b'HTTP/1.1', b'HTTP/9',
           CRLF, b'Host: h', b'Content-Length: 3', b'Content-Length: -1', b'Content-Length: x',
           b'Transfer-Encoding: chunked', b'zz', b'\xff', b'abc']
+FRAMING = [b'Content-Length: 3', b'Content-Length: 0', b'Content-Length: 5', b'Content-Length: -1', b'Content-Length: +3',
+           b'Content-Length: 3 ', b'Transfer-Encoding: chunked', b'Transfer-Encoding: gzip, chunked',
+           b'Transfer-Encoding: chunked, gzip']
+FRAMED_BODIES = [b'', b'abc', b'abcde', b'3\r\nabc\r\n0\r\n\r\n', b'-5\r\nabc', b'-0\r\n\r\n', b'+3\r\nabc\r\n0\r\n\r\n',
+                 b'0x3\r\nabc\r\n0\r\n\r\n', b' 3\r\nabc\r\n0\r\n\r\n', b'3;\r\nabc\r\n0\r\n\r\n', b'\r\n0\r\n\r\n',
+                 b'ffffffffffffffffffffff\r\nabc', b'3\r\nabcXX0\r\n\r\n']
 VALID = [
     b'GET http://h/ HTTP/1.1\r\nHost: h\r\n\r\n',
     b'POST http://h/p HTTP/1.1\r\nHost: h\r\nContent-Length: 3\r\n\r\nabc',
@@ -44,6 +50,13 @@ def inputs(tier):
                 for tail in ((), (18,), (16, 10), (17,)):
                     seq = (a, 3, t, 3, 8, 10, h, 10, 10) + tail
                     out.append(('t:' + '.'.join(map(str, seq)), 'tokens', b''.join(TOKENS[i] for i in seq), seq))
+    # damaged / conflicting message framing: one or two framing headers (in both orders) x body shapes incl.
+    # chunk-size lines that are not plain hex; whatever the proxy decides, it must decide (no endless loop)
+    for ri, head in enumerate((b'POST http://h/p HTTP/1.1\r\nHost: h\r\n', b'POST /w/x HTTP/1.1\r\nHost: h\r\n')):
+        for hi, hs in enumerate([(a,) for a in FRAMING] + list(itertools.product(FRAMING, repeat=2))):
+            for bi, body in enumerate(FRAMED_BODIES):
+                data = head + b''.join(h + CRLF for h in hs) + CRLF + body
+                out.append(('framing:%d:%d:%d' % (ri, hi, bi), 'framing', data, None))
     for i, v in enumerate(VALID):
         cuts = range(1, len(v)) if tier == 'thorough' else sorted(set([1, 3, 4, 10, len(v) // 2, len(v) - 3, len(v) - 1]))
         for k in cuts:
@@ -290,7 +303,7 @@ def _run(tier, scns):
         return netcheck.run(PROP, tier, scns, check, 0, None, det_every=97,
                             flagsets=[(fa, fo) for _n, fa, fo in configs()],
                             rule='part 1: every token sequence of <= L tokens (L=3 quick, 4 thorough) + structured '
-                                 'request-shaped sequences + truncations/concatenations of valid requests, each under '
+                                 'request-shaped sequences + damaged / conflicting framing (1-2 framing headers x 13 body shapes) + truncations/concatenations of valid requests, each under '
                                  'packings {whole, per token, per byte} x {proxy, proxy+web}, one execution of the real '
                                  'executor each; part 2: every generated response over the argument grid, h11 as judge')
     finally:
